@@ -43,7 +43,8 @@ TRUSTED = [
     'prev_child, step_fwd, step_back (without top), FST.child_path, FST.child_from_path, astutil._syntax_ordered_children_'
     '{Call,ClassDef,Dict,Compare,arguments,MatchMapping}; extracted every run: syntax_ordered_children on 2k synthetic parent '
     'shapes of every class, NEXT_FUNCS/PREV_FUNCS on the same shapes',
-    'not modelled: send() to the walk generator, scope=True, asts=, tree modification during a walk (C15), step_*(top=), '
+    'scope=True walks: not modelled in Lean; the oracle checks their ORDER laws (each node once, forward/backward yields are subsequences of the full forward/backward walk order, same node set in both directions) for every scope root of every program and shape; which nodes belong to a scope is C16',
+    'not modelled: send() to the walk generator, asts=, tree modification during a walk (C15), step_*(top=), '
     'last_header_child, as_str paths, None entries on the walk stack (dropped when the tree is serialised; the real code runs on them)',
     'oracle exclusion: in f"{expr = }" CPython places the debug-text Constant before the FormattedValue although it starts inside its braces; that pair is not required to be in start-position order',
     'field kinds of the synthetic shapes come from CPython class docstrings; list lengths 0..3 (0..2 where a class has >3 list '
@@ -452,6 +453,48 @@ def _program(arg):
                      'last_header_child(True) is not the last child of the block header in walk order')
         except Exception as e:
             fail('last_header_child', a.__class__.__name__, 'raised', f'last_header_child raised {e!r}')
+    # scope=True walks are walks too: whatever set of nodes a scope walk yields (that set is C16's business), it yields each once,
+    # forward in the relative order of the full forward walk (parents first, siblings in text order), with back=True in the
+    # relative order of the full backward walk, and both directions yield the same nodes
+    SCOPES = (ast.Module, ast.FunctionDef, ast.AsyncFunctionDef, ast.ClassDef, ast.Lambda, ast.ListComp, ast.SetComp, ast.DictComp,
+              ast.GeneratorExp)
+    pos_f = {id(a): i for i, a in enumerate(rec_pre(ra, False, []))}
+    pos_b = {id(a): i for i, a in enumerate(rec_pre(ra, True, []))}
+    scope_roots = [a for a in fwd if isinstance(a, SCOPES)]
+
+    def lca(x, y):
+        anc = set()
+        while x is not None:
+            anc.add(id(x))
+            x = cp_parent.get(id(x))
+        while y is not None and id(y) not in anc:
+            y = cp_parent.get(id(y))
+        return y
+
+    for a in (scope_roots if len(scope_roots) <= 12 else scope_roots[:4] + rng.sample(scope_roots[4:], 8)):
+        cls = a.__class__.__name__
+        for fname, flt in (('True', True), ('False', False)):
+            try:
+                sf = [g.a for g in a.f.walk(flt, scope=True)]
+                sb = [g.a for g in a.f.walk(flt, scope=True, back=True)]
+            except Exception as e:
+                fail('walk-scope', cls, 'raised', f'walk(all={fname}, scope=True) raised {e!r}')
+                continue
+            if len({id(x) for x in sf}) != len(sf) or len({id(x) for x in sb}) != len(sb):
+                fail('walk-scope', cls, 'node-yielded-twice', f'walk(all={fname}, scope=True) of a {cls} yields a node twice')
+            for api, seq, pos in (('walk-scope', sf, pos_f), ('walk-scope-back', sb, pos_b)):
+                ps = [pos.get(id(x), -1) for x in seq]
+                i = next((i for i in range(len(ps) - 1) if ps[i] >= ps[i + 1] or ps[i] < 0), None)
+                if i is not None:
+                    x, y = seq[i], seq[i + 1]
+                    where = lca(x, y)
+                    fail(api, where.__class__.__name__ if where is not None else cls, 'not-in-walk-order',
+                         f'walk(all={fname}, scope=True{", back=True" if api.endswith("back") else ""}) of a {cls} yields '
+                         f'{x.__class__.__name__}@{getattr(x, "lineno", "?")}:{getattr(x, "col_offset", "?")} before '
+                         f'{y.__class__.__name__}@{getattr(y, "lineno", "?")}:{getattr(y, "col_offset", "?")} (both inside a '
+                         f'{where.__class__.__name__ if where is not None else "?"}), against the order of the full walk')
+            if {id(x) for x in sf} != {id(x) for x in sb}:
+                fail('walk-scope', cls, 'fwd-back-sets-differ', f'walk(all={fname}, scope=True) and its back=True variant yield different nodes')
     # next/prev inverse, children vs walk(recurse=False), pfield consistency, paths
     paths_seen = {}
     for a in fwd:
